@@ -522,7 +522,12 @@ impl Engine {
                         let c = self.model.storages();
                         let mut chain = c[pick(*base, c.len())].clone();
                         chain.push("no such parent".to_string());
-                        chain.push(nm);
+                        // sometimes the leaf below the missing parent is itself invalid
+                        match *name % 6 {
+                            0 => chain.push("\u{1F600}".repeat(16)),
+                            1 => chain.push("q:r".to_string()),
+                            _ => chain.push(nm),
+                        }
                         path_string(&chain).into_bytes()
                     }
                     BadKind::Missing => {
@@ -567,11 +572,16 @@ impl Engine {
                     BadKind::InvalidName => {
                         let c = self.model.storages();
                         let mut chain = c[pick(*base, c.len())].clone();
-                        let bad = match *name % 5 {
+                        let bad = match *name % 8 {
                             0 => "a:b".to_string(),
                             1 => "back\\slash".to_string(),
                             2 => "bang!".to_string(),
                             3 => "x".repeat(32),
+                            // invalid only by UTF-16 length: 16 chars, 32 units
+                            4 => "\u{1F600}".repeat(16),
+                            // 31 chars, 32 units
+                            5 => format!("{}{}", "k".repeat(30), '\u{10000}'),
+                            6 => format!("{}{}", '\u{20000}', "\u{4E00}".repeat(30)),
                             _ => format!("{}{}", nm, "y".repeat(32)),
                         };
                         chain.push(bad);
